@@ -214,6 +214,8 @@ def enumerate_and_replay(run: Run, sc, cfgd: dict, pool, label: str) -> None:
     res2 = run_tlc("ExprInfer", cfg2, sc, workers=1, allow_violation=False)
     cases = res2.printed
     run.coverage.setdefault("programs_emitted", {})[label] = len(cases)
+    if label == "wide":
+        run.cases_for_traces = cases
     refused = 0
     for case, out in pmap(pool, replay_one, cases):
         run.traces += 1
